@@ -39,6 +39,7 @@ CONSTANTS W,            \* workers
           MaxTries, MaxConc, RerunSet, StopSet,
           MaxBounce,    \* exploration bound: back-offs per worker
           DryRun,       \* dry run: nothing is executed or cleaned
+          Prio, UsePrio,\* static last tie-break of the pick order (prefix priority); only fixed for eagerly parsed graphs
           Lazy          \* TRUE: start from flat tests and expand on demand; FALSE: everything parsed up front
 
 TraceLog == IF "TRACE_FILE" \in DOMAIN IOEnv THEN ndJsonDeserialize(IOEnv.TRACE_FILE) ELSE <<>>
@@ -83,12 +84,13 @@ Less(k1, k2) == k1[1] < k2[1] \/ (k1[1] = k2[1] /\ k1[2] < k2[2])
 ParentCands(t, w) == {p \in Setup[t] : Relevant(p, w) /\ ds[t][p][w] = 0}
 ChildCands(t, w) == {c \in Children[t] : Relevant(c, w) /\ dc[t][c][w] = 0}
 \* flat nodes first, then the least picked; the last tie-break (prefix priority) depends on the parse order and is left open
+ByPrio(S) == IF UsePrio THEN {x \in S : \A y \in S : Prio[x] <= Prio[y]} ELSE S
 BestParents(t, w) == LET C == ParentCands(t, w)
                          key(p) == <<FlatFlag(p), Total(pbc, p)>>
-                     IN {p \in C : \A q \in C : ~Less(key(q), key(p))}
+                     IN ByPrio({p \in C : \A q \in C : ~Less(key(q), key(p))})
 BestChildren(t, w) == LET C == ChildCands(t, w)
                           key(c) == <<FlatFlag(c), Total(pbs, c)>>
-                      IN {c \in C : \A q \in C : ~Less(key(q), key(c))}
+                      IN ByPrio({c \in C : \A q \in C : ~Less(key(q), key(c))})
 Involved(t) == {w \in W : \E x \in Tests : pbs[t][x][w] > 0 \/ pbc[t][x][w] > 0}
 Unexplored == {f \in FlatLeaves : \A w \in W : ~unrolled[f][w]}
 ShouldParse(f, w) == ~\E pw \in Involved(f) : unrolled[f][pw] /\ CleanupReady(f, pw) /\ pw \in Unrestricted
@@ -161,6 +163,8 @@ Init == /\ pc = [w \in W |-> "new"] /\ path = [w \in W |-> <<Root>>] /\ dir = [w
 
 \* a worker may act when no other coroutine holds the loop
 Free(w) == turn \in {None, w}
+\* all coroutines are started (each runs to its first await) before any awaited sleep or test process can end
+AllBegun == \A v \in W : pc[v] # "new"
 Idx(w) == CHOOSE k \in 1..Len(WOrder) : WOrder[k] = w
 Begin(w) == /\ pc[w] = "new" /\ turn = None /\ On(w, "begin") /\ Adv
             /\ \A k \in 1..(Idx(w) - 1) : pc[WOrder[k]] # "new"
@@ -195,7 +199,7 @@ Bounce(w) == /\ InLoop(w) /\ Occupied(Last(path[w]), w)
              /\ asleep' = [asleep EXCEPT ![w] = TRUE] /\ nb' = [nb EXCEPT ![w] = @ + 1] /\ turn' = None
              /\ UNCHANGED <<pc, dir, snap, pbs, pbc, ds, dc, started, finished, results, pool, exists, unrolled, rerunOff, bad, preFailed>>
 \* the sleep is over (not an event of the code: in a trace it is implied by the worker's next step)
-Wake(w) == /\ asleep[w] /\ turn = None
+Wake(w) == /\ asleep[w] /\ turn = None /\ AllBegun
            /\ asleep' = [asleep EXCEPT ![w] = FALSE] /\ turn' = w
            /\ UNCHANGED <<pc, path, dir, snap, pbs, pbc, ds, dc, started, finished, results, pool, exists, unrolled, rerunOff, nb, bad, l, preFailed>>
 
@@ -244,7 +248,7 @@ RunStart(w) == /\ InLoop(w)
                /\ UNCHANGED <<path, pbs, pbc, ds, dc, finished, pool, exists, unrolled, asleep, nb, preFailed>>
 
 \* the creation pre-step ends: a failure ends the traversal of the node, otherwise the main step starts at once
-PreEnd(w, st) == /\ pc[w] = "prerunning" /\ turn = None /\ st \in Statuses /\ st # "LOST"
+PreEnd(w, st) == /\ pc[w] = "prerunning" /\ turn = None /\ AllBegun /\ st \in Statuses /\ st # "LOST"
                  /\ LET nx == Last(path[w]) IN
                       /\ On(w, "preend") /\ Arg("t", nx) /\ Arg("s", st) /\ Adv
                       /\ IF st \in {"FAIL", "ERROR"}
@@ -267,7 +271,7 @@ MainStart(w) == /\ pc[w] = "preended" /\ Free(w)
                 /\ pc' = [pc EXCEPT ![w] = "running"] /\ turn' = None
                 /\ UNCHANGED <<path, dir, snap, pbs, pbc, ds, dc, started, finished, pool, exists, unrolled, rerunOff, asleep, nb, preFailed>>
 
-RunEnd(w, st) == /\ pc[w] = "running" /\ turn = None /\ st \in Statuses /\ st # "LOST"
+RunEnd(w, st) == /\ pc[w] = "running" /\ turn = None /\ AllBegun /\ st \in Statuses /\ st # "LOST"
                  /\ LET nx == Last(path[w]) IN
                       /\ On(w, "endrun") /\ Arg("t", nx) /\ Arg("s", st) /\ Adv
                       /\ results' = [results EXCEPT ![nx][w] = [i \in 1..Len(@) |-> IF i = Len(@) THEN st ELSE @[i]]]
@@ -280,7 +284,7 @@ RunEnd(w, st) == /\ pc[w] = "running" /\ turn = None /\ st \in Statuses /\ st # 
 
 \* the result of the execution is never reported: the runner waits (10 x 30 s, other workers run meanwhile) and then
 \* treats it as ERROR
-EndLost(w) == /\ pc[w] \in {"running", "prerunning"} /\ turn = None /\ "LOST" \in Statuses
+EndLost(w) == /\ pc[w] \in {"running", "prerunning"} /\ turn = None /\ AllBegun /\ "LOST" \in Statuses
               /\ On(w, IF pc[w] = "running" THEN "endrun" ELSE "preend") /\ Arg("t", Last(path[w])) /\ Arg("s", "LOST") /\ Adv
               /\ pc' = [pc EXCEPT ![w] = IF pc[w] = "running" THEN "lostwait" ELSE "prelostwait"]
               /\ UNCHANGED <<path, dir, snap, pbs, pbc, ds, dc, started, finished, results, pool, exists, unrolled, rerunOff, preFailed, turn, asleep, nb, bad>>
